@@ -55,6 +55,7 @@ static int do_replay(const char *path) {
 int main(int argc, char **argv) {
 	setvbuf(stdout, NULL, _IOLBF, 0);
 	for (check_t *c = checks; c->id; c++) c->reg();
+	hx_symtab_load();
 	if (argc >= 3 && !strcmp(argv[1], "replay")) return do_replay(argv[2]);
 	if (argc >= 4 && !strcmp(argv[1], "run")) {
 		const char *jobs = getenv("VERIF_JOBS"); int P = jobs ? atoi(jobs) : 20; if (P < 1) P = 1; if (P > 200) P = 200;
